@@ -123,9 +123,16 @@ func c08Oracle(c wireCase) ev.Verdict {
 	}
 	cls, nt := c08Classes(b, &c)
 	vd := ev.Verdict{NT: nt, Classes: cls}
-	fail := func(key, format string, a ...interface{}) ev.Verdict {
+	plain := func(key, format string, a ...interface{}) ev.Verdict {
 		vd.Key, vd.Err = key, fmt.Errorf(format, a...)
 		return vd
+	}
+	// every failure is keyed by its root cause when one element can be blamed (see attribute)
+	fail := func(key, format string, a ...interface{}) ev.Verdict {
+		if f := attribute(b, v); f != "" {
+			key = "layout:" + c.Msg + "/" + f
+		}
+		return plain(key, format, a...)
 	}
 
 	// (i) struct -> encode -> decode -> equal
@@ -167,7 +174,6 @@ func c08Oracle(c wireCase) ev.Verdict {
 		// the struct order alone may point at an innocent neighbour
 		if f := attribute(b, v); f != "" {
 			who = f
-			key = "layout:" + c.Msg + "/" + who
 		}
 		return fail(key, "(ii) encode(decode(bytes)) differs from the bytes at offset %d (element %s): in %s… out %s… (lengths %d / %d)",
 			at, who, short(ref[min(at, len(ref)):]), short(re[min(at, len(re)):]), len(ref), len(re))
@@ -186,9 +192,6 @@ func c08Oracle(c wireCase) ev.Verdict {
 		}
 		if d := diffMsg(dec2, dec3); d != "" {
 			key := "permute:" + c.Msg + "/" + fieldOfPath(d, c.Msg)
-			if f := attribute(b, v); f != "" {
-				key = "layout:" + c.Msg + "/" + f
-			}
 			return fail(key, "(iii) IE order %v decodes differently from table order at %s", c.Perm, d)
 		}
 		vd.Classes = append(vd.Classes, "perm:non-identity")
